@@ -62,10 +62,8 @@ AddExt(s, exts, i) ==
        THEN LET m == Merge(s.types[x.name], [x EXCEPT !.ext = FALSE]) IN
             IF m.ok THEN AddExt([s EXCEPT !.types = Put(@, x.name, [m.def EXCEPT !.ext = FALSE])], exts, i + 1)
             ELSE Fail(s, m.why, m.off)
-       ELSE IF x.name \in DOMAIN s.dirs
-       THEN LET m == Merge(s.dirs[x.name], [x EXCEPT !.ext = FALSE]) IN
-            IF m.ok THEN AddExt([s EXCEPT !.dirs = Put(@, x.name, m.def)], exts, i + 1)
-            ELSE Fail(s, m.why, m.off)
+       ELSE IF x.name \in DOMAIN s.dirs \cup DOMAIN CoreDirs
+       THEN Fail(s, "cannot_extend_directive", x.name)        \* ggql: "can not extend a directive"
        ELSE Fail(s, "extend_not_found", x.name)
 
 LoadResult(s, doc, dv) ==
@@ -73,6 +71,8 @@ LoadResult(s, doc, dv) ==
   THEN Fail(s, "syntax", "")
   ELSE LET a == AddNew(s, NewDefs(doc), 1) IN
        IF ~a.ok THEN Fail(s, a.why, a.off)
+       ELSE IF SchemaDefs(doc) # <<>> /\ (a.s.explicit \/ Len(SchemaDefs(doc)) > 1)
+       THEN Fail(s, "duplicate", "schema")                       \* at most one schema block per root
        ELSE LET sds == SchemaDefs(doc)
                 s1 == IF sds = <<>> THEN a.s
                       ELSE [a.s EXCEPT !.roots = RootsOf(sds[Len(sds)]), !.explicit = TRUE]
